@@ -4,7 +4,7 @@
 (*  "epoch_time" EpochState.advance_time / time_left arithmetic              *)
 (*  "set_seed"   Model.set_seed hands distinct split keys to the seed nodes  *)
 (*  "group"      Group.value_from reads the group member from a model state  *)
-EXTENDS BuilderRules, EpochRules, VarGraph, TraceBatch
+EXTENDS BuilderRules, EpochRules, VarGraph, BuilderOps, TraceBatch
 
 VARIABLES tnow, tin     \* epoch-time model: current time and time within the epoch
 TInit == BatchInit /\ tnow = 0 /\ tin = 0
@@ -75,5 +75,20 @@ TWiring ==
                SeqToSet(Ev.param_vars) = {e[2] : e \in exp})
   /\ UNCHANGED <<tnow, tin>> /\ Step
 
-TNext == TWiring \/ TVarGraph \/ TBuilder \/ TEpochStart \/ TAdvance \/ TSetSeed \/ TGroup
+TReplace ==
+  /\ IsEvent("replace_node")
+  /\ Chk("replace_node_rewires_every_user_in_the_closure",
+         Ev.inp_after = ReplaceInputs(Ev.inp, SeqToSet(Ev.added), Ev.old, Ev.new))
+  /\ Chk("replace_node_updates_the_builders_list",
+         SeqToSet(Ev.added_after) = ReplaceAdded(SeqToSet(Ev.added), Ev.old, Ev.new))
+  /\ UNCHANGED <<tnow, tin>> /\ Step
+
+TRename ==
+  /\ IsEvent("rename")
+  /\ LET Sub(nm) == Ev.sub[nm] IN
+     Chk("rename_touches_exactly_the_named_nodes_of_the_closure",
+         Ev.names_after = Renamed(Ev.inp, SeqToSet(Ev.added), Ev.names, Sub))
+  /\ UNCHANGED <<tnow, tin>> /\ Step
+
+TNext == TReplace \/ TRename \/ TWiring \/ TVarGraph \/ TBuilder \/ TEpochStart \/ TAdvance \/ TSetSeed \/ TGroup
 =============================================================================
